@@ -115,7 +115,9 @@ def check_tree(n, m, acc):
                 idn = rollout(d)
             except Exception as e:  # noqa: BLE001
                 idn = e
-            if not (isinstance(idn, dict) and same(idn, d)):
+            if any("." in k for p in lp for k in p):
+                pass                  # identity is only claimed for keys free of the separator
+            elif not (isinstance(idn, dict) and same(idn, d)):
                 acc.violation("C18|rollout-of-nested-mapping-not-identity",
                               {"tree": m, "leaves": n, "mapping": safe_repr(d, 400),
                                "got": safe_repr(idn, 400)})
@@ -151,9 +153,28 @@ def check_tree(n, m, acc):
                                  "expected": safe_repr(exp, 400), "got": safe_repr(got, 400)})
 
 
+# keys that are free of one separator but contain another: the same flat key string then means
+# different things under different separators ("x/y.a" is x/y -> a under "." and x -> y.a under "/")
+KEYS_X = ("x", "a", "x/y", "y.a", "x__y", "y/a")
+
+
+def cross_separator_trees():
+    out = []
+    for n in (1, 2):
+        out += [(n, m) for m in trees(n, 2, KEYS_X)]
+    return out
+
+
 def worker(shard, nshards, tier, seed):
     acc = Acc()
     T = tree_list(tier)
+    if shard == 0:
+        # all in one process, twice (each flat key string is met under every separator, in both
+        # orders of first encounter)
+        X = cross_separator_trees()
+        for n, m in X + X[::-1]:
+            acc.count("cross_separator_trees")
+            check_tree(n, m, acc)
     for i in range(shard, len(T), nshards):
         n, m = T[i]
         acc.count("trees")
